@@ -3,7 +3,7 @@
    All theorems are for EVERY schedule (list of events), every queue, pop count, number of jobs and workers. *)
 From Coq Require Import List ZArith Bool Arith Permutation.
 Import ListNotations.
-Require Import DH.C17_Queue.Model DH.C17_Queue.Lemmas DH.C17_Queue.Lemmas2 DH.C17_Queue.Check DH.C17_Queue.Lemmas3 DH.C17_Queue.Lemmas4 DH.C17_Queue.Lemmas5 DH.C17_Queue.Lemmas6 DH.C17_Queue.Lemmas7 DH.C17_Queue.Lemmas8.
+Require Import DH.C17_Queue.Model DH.C17_Queue.Lemmas DH.C17_Queue.Lemmas2 DH.C17_Queue.Check DH.C17_Queue.Lemmas3 DH.C17_Queue.Lemmas4 DH.C17_Queue.Lemmas5 DH.C17_Queue.Lemmas6 DH.C17_Queue.Lemmas7 DH.C17_Queue.Lemmas8 DH.C17_Queue.Lemmas9.
 
 Theorem C17_conservation : forall q0 pop njobs W sched,
   let s := qrun pop (qinit q0 njobs W) sched in Permutation (queue s ++ held s) q0.
@@ -227,6 +227,28 @@ Theorem C17_final_okx_sound : forall q0 njobs nometa meta fq s, final_okx q0 njo
 Proof. exact final_okx_sound. Qed.
 Print Assumptions C17_final_okx_sound.
 
+
+(* queues with equal entries (several slots per device, e.g. [0; 0; 1; 1]): no theorem above except the two disjointness
+   theorems assumes distinct resources.  The slot bound replaces disjointness: deque + in use contains every value exactly as
+   often as the initial queue, hence a value is never in use more often than it has slots - in the mechanism, in the
+   extended mechanism, and in every history the oracle accepts *)
+Theorem C17_slot_bound : forall q0 pop njobs W sched v,
+  let s := qrun pop (qinit q0 njobs W) sched in
+  count_occ Z.eq_dec (queue s) v + count_occ Z.eq_dec (held s) v = count_occ Z.eq_dec q0 v.
+Proof. intros. apply (slot_bound q0 pop W). apply qinv_run, qinv_init. Qed.
+Print Assumptions C17_slot_bound.
+
+Theorem C17_ext_slot_bound : forall q0 pop W thr sched v,
+  let s := xrun pop W thr (xinit pop q0) sched in
+  count_occ Z.eq_dec (xqueue s) v + count_occ Z.eq_dec (xheld s) v = count_occ Z.eq_dec q0 v.
+Proof. intros. apply (xslot_bound q0 pop W). apply xinv_run, xinv_init. Qed.
+Print Assumptions C17_ext_slot_bound.
+
+Theorem C17_oracle_slot_bound : forall pop q0 tr s' v, replay_obs pop (mkA q0 [] []) 0 tr = (None, s') ->
+  count_occ Z.eq_dec (free s') v + count_occ Z.eq_dec (aheld s') v = count_occ Z.eq_dec q0 v.
+Proof. exact oracle_slot_bound. Qed.
+Print Assumptions C17_oracle_slot_bound.
+
 (* the pinned design (pop before the worker semaphore, one shared slot): F17 *)
 Theorem C17_prefix_shared_slot_refuted :
   running_received (orun 1 (oinit [10; 11; 12; 13]%Z 4 2)
@@ -269,3 +291,13 @@ Example C17_example_pool :
   let s := xrun 1 1 true (xinit 1 [1; 2]%Z) [XSubmit 1; XTake 0; XRun 0; XStart 0; XSubmit 1; XTake 1; XRun 1; XStart 1] in
   map xph (xjobs s) = [XRunning; XQueued] /\ xbusy s = 1%nat.
 Proof. vm_compute. auto. Qed.
+
+(* two slots per device: both jobs may hold the value 0 at the same time; a third job that reports 0 while both slots are taken
+   is rejected (clause 2), and so is a final deque that has lost one of the equal entries (what seeded C17_6 does) *)
+Example C17_example_multislot :
+  let q0 := [0; 0; 1; 1]%Z in
+  fst (replay_obs 1 (mkA q0 [] []) 0 [ObsStart 0 [0]; ObsStart 1 [0]; ObsEnd 0; ObsStart 2 [0]; ObsEnd 1; ObsEnd 2])%Z = None /\
+  fst (replay_obs 1 (mkA q0 [] []) 0 [ObsStart 0 [0]; ObsStart 1 [0]; ObsStart 2 [0]])%Z = Some (2, 2) /\
+  queue_back q0 [1; 1; 0]%Z = false /\ queue_back q0 [1; 0; 1; 0]%Z = true /\
+  map res (jobs (qrun 1 (qinit q0 3 3) [Take 0; Take 1; Run 0; Run 1; Finish 0; Take 2; Run 2])) = [[0]; [0]; [1]]%Z.
+Proof. vm_compute. auto 6. Qed.
